@@ -28,8 +28,12 @@ def main():
     seed = int(os.environ.get('VERIF_SEED', '0') or 0)
     mod = importlib.import_module('corr.' + prop)
     if tier == '--replay':
-        ctx = vlib.Ctx(prop, 'quick', seed)
         entry = json.load(open(sys.argv[3]))
+        # the case is replayed in the tier and with the seed it was found with (unless VERIF_SEED overrides)
+        if 'VERIF_SEED' not in os.environ and isinstance(entry.get('seed'), int):
+            seed = entry['seed']
+        ctx = vlib.Ctx(prop, entry.get('tier') if entry.get('tier') in ('quick', 'thorough') else 'quick', seed)
+        ctx.driver_ok = False
         ok = mod.replay(ctx, entry) if hasattr(mod, 'replay') else None
         print('replay:', 'property holds on this case' if ok else 'property FAILS on this case' if ok is False else 'no replay function')
         return 0 if ok else 1
